@@ -53,6 +53,10 @@ func c02Report(pb []byte, f c02Format) error {
 	if err != nil {
 		return fmt.Errorf("re-parse: %v", err)
 	}
+	p.RemoveUninteresting() // fetchProfiles, error ignored there too
+	if err := p.CheckValid(); err != nil {
+		return err
+	}
 	if len(p.SampleType) == 0 {
 		return fmt.Errorf("profile has no samples") // what driver.sampleFormat answers
 	}
